@@ -156,7 +156,7 @@ MANIFEST_META = {
 
 _NYB = 'not yet built in this round (work in progress; will be claimed or given a final reason)'
 NOT_APPLICABLE = {
-            'C12': 'SVG text is built with format!/String::push_str/join and function-pointer calls; Verus has no format!/string-content reasoning and Kani on String code here is prohibitive (4 symbolic bytes > 20 min): no contract within reach can express it',
+            'C12': 'the SVG text interpolates numbers (usize and f64 through format!/Display), joins per-module sub-paths produced through a table of function pointers and user closures (Shape::Command), and embeds caller strings; vstd specifies String::push/push_str (enough for the terminal renderer, C16) but nothing about numeric formatting or fn-pointer dispatch, the extraction rule F1 covers char placeholders only, and Kani on String code here is prohibitive (4 symbolic bytes > 20 min): no contract within reach can state the sub-path text',
     'C13': 'pixels come out of usvg/resvg/tiny-skia/png (external crates, floating-point rasterisation); no repository function whose contract could state them and no verifier here reaches those crates',
     'C19': 'the repository part is two ?-propagations around File::create/write_all/save_png; deciding file contents and fault behaviour needs contracts on std::fs/png, not on this code (Kani spike: foreign close/write unsupported)',
 }
